@@ -5,6 +5,7 @@
 #[allow(dead_code, unused_imports)]
 mod driver;
 
+mod c15;
 mod c19;
 mod case;
 mod dispatch;
